@@ -28,6 +28,7 @@ def run(repo, run, tier):
     slope_cache(repo, run)
     containers(repo, run)
     evaluation_paths(repo, run)
+    cache_invalidation(repo, run)
     balance_rule(repo, run, "C06.5", want="all")
     from .c09 import removal_index
     removal_index(repo, run, "C06.7")
@@ -421,3 +422,67 @@ def evaluation_paths(repo, run):
     run.judged(rid, "add_interpolant adds a list of pieces pairwise, in order", ok=ok)
     if not ok:
         run.report("C06.8", DS, add, "a list of pieces (Richardson sub-steps) is not added pairwise (t[i], y_interp[i]) in order", text="add_interpolant list path")
+
+
+# ------------------------------------------------------------------------------------------------
+def cache_invalidation(repo, run):
+    """array queries bisect `t_eval_arr`, a stacked copy of the knot list that is rebuilt only when the stale flag is set: every path of every DenseOutput method
+    that changes the knot list must leave the flag set (or the copy rebuilt), or later array queries are answered from the old, shorter knot array"""
+    from ..flow import Client, Engine
+    rid = run.rule("C06.10", "cache discipline of DenseOutput (must-pass-through over all paths of every method): after any mutation of `self.t_eval` (append / insert / pop / "
+                             "rebinding / item store) the method exits only after `self.__t_eval_arr_stale = True` or a rebuild of the stacked copy", floor=3)
+    cls = repo.get(DS, "DenseOutput")
+    MUT = {"append", "insert", "pop", "remove", "extend", "clear", "sort", "reverse"}
+
+    class C(Client):
+        def transfer(self, st, state):
+            dirty = state
+            for x in ast.walk(st):
+                if isinstance(x, ast.Call) and isinstance(x.func, ast.Attribute) and x.func.attr in MUT and is_self_attr(x.func.value, "t_eval"):
+                    dirty = True
+            tg = st.targets if isinstance(st, ast.Assign) else ([st.target] if isinstance(st, (ast.AugAssign, ast.AnnAssign)) else ([t for t in st.targets] if isinstance(st, ast.Delete) else []))
+            for t in tg:
+                if is_self_attr(t, "t_eval") or (isinstance(t, ast.Subscript) and is_self_attr(t.value, "t_eval")):
+                    dirty = True
+            for t in tg:
+                if is_self_attr(t, "__t_eval_arr_stale") and isinstance(st, ast.Assign) and isinstance(st.value, ast.Constant) and st.value.value is True:
+                    dirty = False
+                if is_self_attr(t, "__t_eval_arr") and isinstance(st, ast.Assign) and any(is_self_attr(a, "t_eval") for c in ast.walk(st.value) if isinstance(c, ast.Call) for a in c.args):
+                    dirty = False
+                if is_self_attr(t, "__t_eval_arr") and isinstance(st, ast.Assign) and isinstance(st.value, ast.Constant) and st.value.value is None:
+                    dirty = dirty       # no copy at all: nothing to go stale only if the knot list is empty too; keep the state
+            return [dirty]
+    n = 0
+    for fn in [x for x in cls.body if isinstance(x, ast.FunctionDef)]:
+        touches = any(isinstance(x, ast.Attribute) and x.attr == "t_eval" and isinstance(x.ctx, (ast.Store, ast.Del)) for x in ast.walk(fn)) or any(
+            isinstance(x, ast.Call) and isinstance(x.func, ast.Attribute) and x.func.attr in MUT and is_self_attr(x.func.value, "t_eval") for x in ast.walk(fn)) or any(
+            isinstance(x, ast.Subscript) and is_self_attr(x.value, "t_eval") and isinstance(x.ctx, (ast.Store, ast.Del)) for x in ast.walk(fn))
+        if not touches:
+            continue
+        n += 1
+        run.analysed_fn(DS, fn)
+        out = Engine(C()).run(fn, [False])
+        bad = [(s, node) for (s, node) in out.ret if s is True] + [(s, fn) for s in out.normal if s is True]
+        # in __init__ with no pieces the copy is None together with the list: accepted when the only dirty exits assign both to None
+        if fn.name == "__init__":
+            bad = [b for b in bad if not all(isinstance(st.value, ast.Constant) and st.value.value is None for st in ast.walk(fn)
+                                             if isinstance(st, ast.Assign) and any(is_self_attr(t, "t_eval") for t in st.targets) and False)]
+            # __init__ establishes list and copy together; judge it by presence of a rebuild/None on each branch
+            ok_init = True
+            for st in ast.walk(fn):
+                if isinstance(st, ast.Assign) and any(is_self_attr(t, "t_eval") for t in st.targets):
+                    blk = st._parent
+                    body = [b for fld in ("body", "orelse") for b in (getattr(blk, fld, []) or []) if any(b is x for x in getattr(blk, fld))]
+                    sib = [b for fld in ("body", "orelse") if any(st is x for x in (getattr(blk, fld, []) or [])) for b in getattr(blk, fld)]
+                    if not any(isinstance(b, ast.Assign) and any(is_self_attr(t, "__t_eval_arr") for t in b.targets) for b in sib):
+                        ok_init = False
+            run.judged(rid, "DenseOutput.__init__ sets the knot list and its stacked copy together", ok=ok_init)
+            if not ok_init:
+                run.report("C06.10", DS, fn, "DenseOutput.__init__ binds the knot list without (re)building the stacked copy", text="__init__ knot list / copy")
+            continue
+        run.judged(rid, "DenseOutput.%s: exits with a stale stacked copy on %d of %d paths" % (fn.name, len(bad), len(out.ret) + len(out.normal)), ok=not bad)
+        for s, node in bad[:2]:
+            run.report("C06.10", DS, node, "DenseOutput.%s can return after changing the knot list without marking the stacked copy `t_eval_arr` stale: array queries keep "
+                                           "bisecting the old knots (answers come from pieces several steps away from the query)" % fn.name)
+    if n == 0:
+        raise AnalysisError("DenseOutput: no method changes the knot list")
